@@ -190,6 +190,14 @@ pub fn generate(r: &mut Rng, _tier: Tier, _group: u64) -> serde_json::Value {
         let base = *r.pick(&[0u64, 0, 1, 2, 9, 10, 99, 2147483647]);
         if dirty == "--clean" {
             none_states.push(NoneState { tag, branch, distance: None, dirty });
+        } else if dirty.is_empty() && r.chance(1, 4) {
+            // a release chain: a state after the tag, then the tag flow printed for it ("<<PREV>>") at
+            // distance 0 (clause 4) and with more commits (clause 3 from the tag onwards)
+            let d0 = 1 + r.below(12);
+            none_states.push(NoneState { tag: tag.clone(), branch: branch.clone(), distance: Some(d0), dirty: String::new() });
+            for d in [0u64, 1, 4] {
+                none_states.push(NoneState { tag: "<<PREV>>".into(), branch: branch.clone(), distance: Some(d), dirty: String::new() });
+            }
         } else if r.chance(1, 3) {
             // a ladder of distances on one branch and tag (clause 3)
             for step in [0u64, 1, 6] {
@@ -398,6 +406,8 @@ pub fn execute(ctx: &Ctx, scv: &serde_json::Value, rd: &RunDir, stats: &mut Stat
     let mut now = sc.sim_now;
     let mut viol: Vec<Violation> = vec![];
     let mut records: Vec<Record> = vec![];
+    // release tag -> (branch it was produced on, were the run's flags the ones that produced it)
+    let mut tag_origin: std::collections::BTreeMap<String, Option<String>> = std::collections::BTreeMap::new();
     let preset = flag_val(&sc.flags, "--schema").unwrap_or("default").to_string();
     let explicit_mode = flag_val(&sc.flags, "--post-mode");
     let custom_rules = flag_val(&sc.flags, "--branch-rules").is_some();
@@ -431,7 +441,7 @@ pub fn execute(ctx: &Ctx, scv: &serde_json::Value, rd: &RunDir, stats: &mut Stat
                 }
                 // the documented release step: tag HEAD with the public part of flow's own output
                 let mut rf: Vec<String> = vec![];
-                for k in ["--post-mode", "--branch-rules", "--pre-release-label", "--pre-release-num"] {
+                for k in ["--post-mode", "--branch-rules", "--pre-release-label", "--pre-release-num", "--hash-branch-len"] {
                     if let Some(v) = flag_val(&sc.flags, k) {
                         rf.extend([k.to_string(), v.to_string()]);
                     }
@@ -454,6 +464,9 @@ pub fn execute(ctx: &Ctx, scv: &serde_json::Value, rd: &RunDir, stats: &mut Stat
                 let name = format!("v{public}");
                 let kind = if *annotated { TagKind::Annot } else { TagKind::Light };
                 let r = w.apply(&Op::Tag { name: name.clone(), kind, target: None, actor: 0, dt: 1 })?;
+                if r.starts_with("tag ") {
+                    tag_origin.insert(name.clone(), w.head_branch());
+                }
                 stats.bump("release_tags_from_flow_output");
                 stats.event(format!("step {i} release {name} => {r}"));
             }
@@ -506,7 +519,10 @@ pub fn execute(ctx: &Ctx, scv: &serde_json::Value, rd: &RunDir, stats: &mut Stat
                     rec.out[*k] = judge_one(f, o, &tag, at_tag_clean, &state, stats, &mut viol);
                 }
                 // clause 3 over the recorded history
-                if rec.commit_mode && final_xyz(&rec.tag).is_some() {
+                // clause 3: after a final tag, or after a pre-release tag that flow itself produced on
+                // this very branch (then label and number of the tag are this branch's own)
+                let own_prerelease_tag = flow_prerelease(&rec.tag).is_some() && rec.branch.is_some() && tag_origin.get(&rec.tag) == Some(&rec.branch);
+                if rec.commit_mode && (final_xyz(&rec.tag).is_some() || own_prerelease_tag) {
                     let chain = first_parent_chain(&w, h);
                     for old in &records {
                         if old.commit_mode && old.branch == rec.branch && old.branch.is_some() && old.tag == rec.tag && old.distance < rec.distance && chain.contains(&old.head) {
@@ -547,10 +563,35 @@ pub fn execute(ctx: &Ctx, scv: &serde_json::Value, rd: &RunDir, stats: &mut Stat
     }
     // ---- the override-only family: same flags, same clock, no repository
     let mut prev: Option<(NoneState, [Option<String>; 2])> = None;
-    for (ni, ns) in sc.none_states.iter().enumerate() {
+    let mut chain_tag: Option<String> = None;
+    for (ni, ns_raw) in sc.none_states.iter().enumerate() {
         if viol.len() >= 24 {
             break;
         }
+        // "<<PREV>>": the tag is the public part of what flow printed for the state before the chain
+        let mut ns_owned = ns_raw.clone();
+        let own_tag = ns_raw.tag == "<<PREV>>";
+        if own_tag {
+            let first_of_chain = ni == 0 || sc.none_states[ni - 1].tag != "<<PREV>>";
+            if first_of_chain {
+                chain_tag = prev.as_ref().and_then(|(_, o)| o[0].clone()).and_then(|line| {
+                    let public = line.split('+').next().unwrap_or("").to_string();
+                    let public = match public.find(".dev.") {
+                        Some(p) => public[..p].to_string(),
+                        None => public,
+                    };
+                    flow_prerelease(&public).map(|_| format!("v{public}"))
+                });
+            }
+            match &chain_tag {
+                Some(t) => ns_owned.tag = t.clone(),
+                None => {
+                    prev = None;
+                    continue;
+                }
+            }
+        }
+        let ns = &ns_owned;
         now = (now + sc.now_step).min(4_294_967_295);
         let dist = if ns.dirty == "--clean" { 0 } else { ns.distance.unwrap_or(0) };
         let dirty = ns.dirty == "--dirty";
@@ -586,7 +627,7 @@ pub fn execute(ctx: &Ctx, scv: &serde_json::Value, rd: &RunDir, stats: &mut Stat
         // clause 3 between successive rungs of a distance ladder
         if let Some((p, pouts)) = &prev {
             let pd = p.distance.unwrap_or(0);
-            if commit_mode && final_xyz(&ns.tag).is_some() && p.tag == ns.tag && p.branch == ns.branch && p.dirty == ns.dirty && ns.dirty != "--clean" && pd < dist {
+            if commit_mode && (final_xyz(&ns.tag).is_some() || (own_tag && flow_prerelease(&ns.tag).is_some())) && p.tag == ns.tag && p.branch == ns.branch && p.dirty == ns.dirty && ns.dirty != "--clean" && pd < dist {
                 for k in 0..2 {
                     let f = if k == 0 { "semver" } else { "pep440" };
                     if let (Some(a), Some(b)) = (&pouts[k], &outs[k]) {
